@@ -327,9 +327,89 @@ def gen_soi_kapp(rng, count):
     return out
 
 
+BIG_MULTS = [2 ** 53 - 1, 2 ** 53, 2 ** 53 + 1, 2 ** 53 + 3, 2 ** 53 + 7, 2 ** 53 + 101, 2 ** 63 - 1, 2 ** 63 + 1,
+             2 ** 64 + 1, 10 ** 30 + 7]
+HUGE_IDS = [10 ** 18, 2 ** 64 + 1, 10 ** 18 + 1, 2 ** 63, 2 ** 53 + 1]
+
+
+def exotic_payload(rng, ip, p=0.2):
+    """legitimate but under-sampled values: the alternative id 0, huge ids, multiplicities beyond 2**53 / 2**63 /
+    2**64 (each with probability p, independently).  Relabelings are bijections, so ballots stay distinct."""
+    dt, alts, _, _, prof = ip
+    alts = list(alts)
+    tags = []
+    ren = {}
+    if rng.random() < p and 0 not in alts:
+        ren[rng.choice(alts)] = 0
+        tags.append("zero-id")
+    if rng.random() < p:
+        free = [a for a in alts if a not in ren]
+        rng.shuffle(free)
+        ids = [h for h in HUGE_IDS if h not in alts]
+        rng.shuffle(ids)
+        for a, h in zip(free[: rng.randint(1, 2)], ids):
+            ren[a] = h
+        tags.append("huge-id")
+    if ren:
+        alts = [ren.get(a, a) for a in alts]
+        prof = [[[[ren.get(a, a) for a in c] for c in o], k] for o, k in prof]
+    if rng.random() < p:
+        mode = rng.choice(["scale", "near", "replace"])
+        B = rng.choice(BIG_MULTS)
+        if mode == "scale":          # keeps every tie, majority and exact half of the original profile
+            prof = [[o, k * B] for o, k in prof]
+        elif mode == "near":         # scores that differ only in the lowest bits of a > 53-bit number (or not at all)
+            prof = [[o, rng.choice([B, B, B + 1, B - 1, B + 2])] for o, k in prof]
+        else:
+            prof = [[o, rng.choice(BIG_MULTS + [1, 2, k])] for o, k in prof]
+        tags.append("big-mult-" + mode)
+    return inst_payload(dt, alts, prof), tags
+
+
+def exoticise(rng, cases):
+    out = []
+    for c in cases:
+        if c["op"] != "c06.all":
+            out.append(c)
+            continue
+        ip, tags = exotic_payload(rng, c["payload"][0])
+        if tags:
+            c = case("c06.all", [ip, c["payload"][1]], **dict(c["tags"], exotic="+".join(tags)))
+        out.append(c)
+    return out
+
+
+def gen_big_ties(rng, count):
+    """two first choices whose totals are 2**53 and 2**53+1 (must NOT tie) or both 2**53+1 (must tie), the totals
+    being reached as sums over several ballots in either order"""
+    out = []
+    for j in range(count):
+        m = rng.randint(2, 4)
+        alts = rng.sample([0, 1, 2, 3, 4, 5, 10 ** 18, 2 ** 64 + 1], m)
+        dt = rng.choice([0, 0, 1, 2, 3])
+        B = rng.choice([2 ** 53, 2 ** 53, 2 ** 63, 2 ** 64, 10 ** 30 + 6])
+        ta, tb = rng.choice([(B, B + 1), (B + 1, B + 1), (B + 1, B), (B + 1, B + 2), (B + 2, B + 2)])
+        a, b = alts[0], alts[1]
+        prof = []
+        for top, tot in ((a, ta), (b, tb)):
+            parts = [tot] if rng.random() < 0.4 else rng.choice([[tot - 1, 1], [1, tot - 1], [tot - 2, 1, 1], [1, 1, tot - 2]])
+            for k in parts:
+                rest = rand_perm(rng, [x for x in alts if x != top])
+                prof.append((shape(rng, dt, [top] + rest), k))
+        if rng.random() < 0.5:
+            prof = prof[::-1]
+        out.append(all_case(dt, alts, prof, gen="big-first-place-ties"))
+    return out
+
+
 def gen_random(tier, seed):
+    return exoticise(random.Random(1000003 * seed + 606), _gen_random(tier, seed))
+
+
+def _gen_random(tier, seed):
     rng = random.Random(1000003 * seed + 6)
     out = []
+    out.extend(gen_big_ties(rng, 300 if tier == "quick" else 3000))
     out.extend(gen_sav_exact_ties(rng, 150 if tier == "quick" else 1500))
     out.extend(gen_soi_kapp(rng, 400 if tier == "quick" else 5000))
     n = 2500 if tier == "quick" else 40000
@@ -457,6 +537,23 @@ def stats(c, r, m):
     out = ["type=%s" % DT[ip[0]], "m=%d" % len(ip[1]), "ballots=%s" % (len(ip[4]) if len(ip[4]) <= 3 else ">3")]
     if c["tags"].get("gen"):
         out.append("gen=" + c["tags"]["gen"])
+    flat = [a for a in ip[1]]
+    if 0 in flat:
+        out.append("ids: contain the alternative 0")
+    if any(a >= 10 ** 18 for a in flat):
+        out.append("ids: huge (>= 10**18, incl. 2**64+1)")
+    mx = max([k for _, k in ip[4]] + [0])
+    if mx > 2 ** 53:
+        out.append("multiplicities: some > 2**53" + (" (> 2**63)" if mx > 2 ** 63 else ""))
+        first = {}
+        for o, k in ip[4]:
+            for a in o[0]:
+                first[a] = first.get(a, 0) + k
+        vals = sorted(first.values())
+        if any(x != y and float(x) == float(y) for x, y in zip(vals, vals[1:])):
+            out.append("first-place totals differ only beyond the 53rd bit (must NOT tie)")
+        if any(x == y and x > 2 ** 53 for x, y in zip(vals, vals[1:])):
+            out.append("first-place totals equal and > 2**53 (must tie)")
     if ip[0] == 1:
         cover = {}
         for o, k in ip[4]:
